@@ -165,6 +165,8 @@ pub struct Explorer<'a> {
     pub intent: bool,
     /// second pass after a positive child probe: attribute the problem scenario by scenario
     pub deep: bool,
+    /// running digest of (case, verdict) pairs of this run (determinism self-test)
+    pub digest: u64,
 }
 
 impl Explorer<'_> {
@@ -188,6 +190,15 @@ impl Explorer<'_> {
         }
         if let Some(s) = &self.slot {
             *s.cur.lock().unwrap() = None;
+        }
+        {
+            let verdict = match &r {
+                Ok(Ok(())) => "ok".to_string(),
+                Ok(Err(f)) => format!("fail:{}:{}", f.clause, f.known.clone().unwrap_or_default()),
+                Err(_) => "harness".to_string(),
+            };
+            let h = crate::rng::hash_bytes(format!("{}|{verdict}", serde_json::to_string(&case).unwrap_or_default()).as_bytes());
+            self.digest = self.digest.rotate_left(5) ^ h;
         }
         match r {
             Ok(Ok(())) => {
@@ -413,7 +424,7 @@ fn handler_variants(h: &HandlerSpec) -> Vec<HandlerSpec> {
 }
 
 pub fn shrink(prop: &dyn Property, case: &Case, fail: &Fail) -> (Case, Fail, usize) {
-    let total_budget = if prop.isolated() { 300usize } else { 2000usize };
+    let total_budget = if prop.isolated() { 300usize } else { 1200usize };
     let mut budget = total_budget;
     let mut cur = case.clone();
     let mut cur_fail = fail.clone();
@@ -647,9 +658,18 @@ pub fn explore_batch(prop: &dyn Property, tier: Tier, seed: u64, runs: u64, nwor
                         sample_budget: if run < 3 { 1 } else { 0 },
                         intent: false,
                         deep: false,
+                        digest: 0,
                     };
                     prop.explore(&mut rng, tier, &mut ex);
-                    results.lock().unwrap().push((run, ex));
+                    let mut g = results.lock().unwrap();
+                    if !ex.fails.is_empty() {
+                        // enough evidence of a violation: no need to finish the batch
+                        let failing_runs = g.iter().filter(|(_, e)| !e.fails.is_empty()).count();
+                        if failing_runs >= 200 {
+                            stop.store(true, Ordering::Relaxed);
+                        }
+                    }
+                    g.push((run, ex));
                 }
             }));
         }
@@ -967,6 +987,7 @@ pub fn explore_child(prop: &dyn Property, tier: Tier, seed: u64, from: u64, to: 
             sample_budget: if run < 3 { 1 } else { 0 },
             intent: true,
             deep: false,
+            digest: 0,
         };
         prop.explore(&mut rng, tier, &mut ex);
         let interval = prop.probe_interval();
@@ -974,7 +995,7 @@ pub fn explore_child(prop: &dyn Property, tier: Tier, seed: u64, from: u64, to: 
             if prop.child_probe() {
                 for r2 in last_clean..=run {
                     let mut rng2 = Rng::new(seed, prop.id(), r2);
-                    let mut ex2 = Explorer { prop, stats: Stats::default(), fails: vec![], harness_errors: vec![], run: r2, tier, slot: None, sample_budget: 0, intent: true, deep: true };
+                    let mut ex2 = Explorer { prop, stats: Stats::default(), fails: vec![], harness_errors: vec![], run: r2, tier, slot: None, sample_budget: 0, intent: true, deep: true, digest: 0 };
                     prop.explore(&mut rng2, tier, &mut ex2);
                     let found = !ex2.fails.is_empty();
                     ex.fails.extend(ex2.fails);
@@ -1186,4 +1207,28 @@ pub fn explore_batch_isolated(prop: &dyn Property, tier: Tier, seed: u64, runs: 
         }
     }
     out
+}
+
+/// Determinism self-test support: per-run digests of (generated cases, verdicts, logical time).
+pub fn digest_runs(prop: &dyn Property, tier: Tier, seed: u64, runs: u64, nworkers: usize) -> Vec<String> {
+    let next = AtomicU64::new(0);
+    let out: Mutex<Vec<(u64, String)>> = Mutex::new(vec![]);
+    std::thread::scope(|sc| {
+        for _ in 0..nworkers.max(1) {
+            sc.spawn(|| loop {
+                let run = next.fetch_add(1, Ordering::Relaxed);
+                if run >= runs {
+                    break;
+                }
+                let mut rng = Rng::new(seed, prop.id(), run);
+                let mut ex = Explorer { prop, stats: Stats::default(), fails: vec![], harness_errors: vec![], run, tier, slot: None, sample_budget: 0, intent: false, deep: false, digest: 0 };
+                prop.explore(&mut rng, tier, &mut ex);
+                let line = format!("{} run={run} digest={:016x} evaluations={} ticks={} fails={}", prop.id(), ex.digest, ex.stats.evaluations, ex.stats.ticks, ex.fails.len());
+                out.lock().unwrap().push((run, line));
+            });
+        }
+    });
+    let mut v = out.into_inner().unwrap();
+    v.sort();
+    v.into_iter().map(|x| x.1).collect()
 }
